@@ -6,7 +6,10 @@
 //! party takes), plus single-point tampers of valid (cert, issuer, time)
 //! triples. Oracle: the conjunction in the statement evaluated from the
 //! parameters the harness chose, and an interval-set model of the effective
-//! resources.
+//! resources. Valid links are also re-issued with one extension rewritten by
+//! the harness' own DER writer (resource extensions in shapes the builder
+//! cannot produce, key identifiers of other lengths and encodings) and signed
+//! with the issuer key: see `encoder_shapes` and `keyid_shapes`.
 
 use crate::c03_gen::{sequence, Flavour};
 use crate::core::{hex, Ctx, Rng, Stage, Tier};
@@ -551,7 +554,7 @@ struct Node {
     na: i64,
 }
 
-fn run_chain(ctx: &mut Ctx, w: &World, rng: &mut Rng, chain_no: u64) {
+fn run_chain(ctx: &mut Ctx, w: &World, rng: &mut Rng, xrng: &mut Rng, chain_no: u64) {
     let nkeys = w.pool.len();
     // evaluation instants in several eras so that validity windows are encoded
     // as UTCTime on both sides of the two-digit-year pivot and as GeneralizedTime
@@ -745,6 +748,18 @@ fn run_chain(ctx: &mut Ctx, w: &World, rng: &mut Rng, chain_no: u64) {
         if rng.chance(tamper_budget, 2) {
             tampers(ctx, w, rng, &spec, &d, &node, strict, now, &detail);
         }
+        // ---- the same certificate with one extension rewritten by the independent encoder
+        // (own random stream: the chains above stay the same for a given seed)
+        // (the thorough native stage runs 30 times as many chains: a third of the rate there)
+        let (es_den, ki_den) = if ctx.tier == Tier::Thorough && ctx.stage == Stage::Native { (6, 9) } else { (2, 3) };
+        if xrng.chance(tamper_budget, es_den) {
+            for _ in 0..2 {
+                encoder_shapes(ctx, w, xrng, &spec, &d, &node, strict, now, &detail);
+            }
+        }
+        if xrng.chance(tamper_budget, ki_den) {
+            keyid_shapes(ctx, w, xrng, &spec, &d, &node, strict, now, &detail);
+        }
         match (kind, rc, want) {
             (Kind::Ca, Some(rc), Some(eff)) => {
                 node = Node { der_bytes: d, rc, eff, key, depth: node.depth + 1, nb: cnb, na: cna };
@@ -888,6 +903,601 @@ fn tampers(ctx: &mut Ctx, w: &World, rng: &mut Rng, spec: &Spec, d: &[u8], issue
     }
 }
 
+//------------ certificates written by the independent encoder ---------------
+//
+// The library's builder can only produce one shape of the RFC 3779 extensions
+// (at most one entry per address family, IPv4 before IPv6, canonical block
+// lists) and only 20-octet key identifiers. A relying party reads whatever
+// an issuer signed. The functions below take a valid certificate, rewrite one
+// extension with the harness' own DER writer, and sign the result with the
+// issuer's key, so that nothing but the decoder and the checks named in the
+// statement stand between the input and acceptance.
+
+const OID_CE_SKI: &[u64] = &[2, 5, 29, 14];
+const OID_CE_AKI: &[u64] = &[2, 5, 29, 35];
+const OID_IP_REFUSE: &[u64] = &[1, 3, 6, 1, 5, 5, 7, 1, 7];
+const OID_AS_REFUSE: &[u64] = &[1, 3, 6, 1, 5, 5, 7, 1, 8];
+const OID_IP_TRIM: &[u64] = &[1, 3, 6, 1, 5, 5, 7, 1, 28];
+const OID_AS_TRIM: &[u64] = &[1, 3, 6, 1, 5, 5, 7, 1, 29];
+
+fn extension(oid: &[u64], critical: bool, value: &[u8]) -> Vec<u8> {
+    if critical {
+        der::seq(&[&der::oid(oid), &der::boolean(true), &der::octets(value)])
+    } else {
+        der::seq(&[&der::oid(oid), &der::octets(value)])
+    }
+}
+
+/// The TBS of `cert` with the extensions named in `remove` dropped and `add`
+/// appended (everything else byte for byte).
+fn edit_extensions(cert: &[u8], remove: &[&[u64]], add: &[Vec<u8>]) -> Option<Vec<u8>> {
+    edit_extensions2(cert, remove, &[], add)
+}
+
+/// As `edit_extensions`, with extensions to put in front of the list too.
+fn edit_extensions2(cert: &[u8], remove: &[&[u64]], add_front: &[Vec<u8>], add: &[Vec<u8>]) -> Option<Vec<u8>> {
+    let root = der::parse(cert)?;
+    let tbs_bytes = root.child(0)?.whole(cert).to_vec();
+    let troot = der::parse(&tbs_bytes)?;
+    let xi = troot.children.iter().position(|c| c.tag == der::ctx(3))?;
+    let list = troot.children[xi].child(0)?;
+    let rm: Vec<Vec<u8>> = remove.iter().map(|o| der::oid(o)).collect();
+    let mut exts: Vec<Vec<u8>> = add_front.to_vec();
+    for e in &list.children {
+        let oid = e.child(0)?.whole(&tbs_bytes);
+        if rm.iter().any(|r| r.as_slice() == oid) {
+            continue;
+        }
+        exts.push(e.whole(&tbs_bytes).to_vec());
+    }
+    exts.extend(add.iter().cloned());
+    let new = der::tlv(der::ctx(3), &der::seq_of(&exts));
+    Some(der::replace_node(&tbs_bytes, &troot, &[xi], &new))
+}
+
+/// BIT STRING holding the first `nbits` bits of `v` (unused bits zero).
+fn addr_bits(v: u128, nbits: u32) -> Vec<u8> {
+    let v = if nbits == 0 { 0 } else if nbits >= 128 { v } else { v & !((1u128 << (128 - nbits)) - 1) };
+    let bytes = v.to_be_bytes();
+    let n = nbits.div_ceil(8) as usize;
+    der::bitstring(((8 - nbits % 8) % 8) as u8, &bytes[..n])
+}
+
+fn is_prefix(lo: u128, hi: u128) -> bool {
+    if lo == 0 && hi == u128::MAX {
+        return true;
+    }
+    let size = hi - lo + 1;
+    size.is_power_of_two() && lo % size == 0
+}
+
+/// `SEQUENCE OF IPAddressOrRange` for element-space blocks in the order given.
+fn enc_ip_blocks(fl: Flavour, blocks: &[(u128, u128)], range_form: bool) -> Vec<u8> {
+    let items: Vec<Vec<u8>> = blocks
+        .iter()
+        .map(|(lo, hi)| {
+            let (a, b) = fl.embed(*lo, *hi);
+            if is_prefix(a, b) && !range_form {
+                let host = if a == 0 && b == u128::MAX { 128 } else { (b - a + 1).trailing_zeros() };
+                addr_bits(a, 128 - host)
+            } else {
+                let nmin = if a == 0 { 0 } else { 128 - a.trailing_zeros() };
+                let nmax = if b == u128::MAX { 0 } else { 128 - b.trailing_ones() };
+                der::seq(&[&addr_bits(a, nmin), &addr_bits(b, nmax)])
+            }
+        })
+        .collect();
+    der::seq_of(&items)
+}
+
+/// `SEQUENCE OF ASIdOrRange` for blocks in the order given.
+fn enc_as_blocks(blocks: &[(u128, u128)], range_form: bool) -> Vec<u8> {
+    let items: Vec<Vec<u8>> = blocks
+        .iter()
+        .map(|(lo, hi)| if lo == hi && !range_form { der::uint(*lo) } else { der::seq(&[&der::uint(*lo), &der::uint(*hi)]) })
+        .collect();
+    der::seq_of(&items)
+}
+
+#[derive(Clone, Debug, PartialEq)]
+enum EChoice {
+    Inherit,
+    /// element-space blocks in the order they are written
+    Blocks(Vec<(u128, u128)>),
+}
+
+/// One entry of a resource extension as written: an `IPAddressFamily`
+/// (family 1 = IPv4, 2 = IPv6) or one tagged member of `ASIdentifiers`
+/// (family 0 = asnum `[0]`, 3 = rdi `[1]`).
+#[derive(Clone, Debug)]
+struct Entry {
+    fam: usize,
+    choice: EChoice,
+    range_form: bool,
+    /// how the block list was written: "", "rev", "adj", "dup"
+    order: &'static str,
+}
+
+impl Entry {
+    fn tag(&self) -> String {
+        let f = ["a", "4", "6", "r"][self.fam];
+        let c = match &self.choice {
+            EChoice::Inherit => "i".to_string(),
+            EChoice::Blocks(b) if b.is_empty() => "e".to_string(),
+            EChoice::Blocks(_) => "b".to_string(),
+        };
+        format!("{}{}", f, c)
+    }
+
+    fn json(&self) -> Value {
+        let family = ["asnum", "ipv4", "ipv6", "rdi"][self.fam];
+        json!({
+            "family": family,
+            "choice": match &self.choice {
+                EChoice::Inherit => json!("inherit"),
+                EChoice::Blocks(b) => Value::Array(b.iter().map(|(a, b)| json!([a.to_string(), b.to_string()])).collect()),
+            },
+            "range_form": self.range_form,
+            "list_order": self.order,
+        })
+    }
+}
+
+fn enc_ip_ext(entries: &[Entry]) -> Vec<u8> {
+    let fams: Vec<Vec<u8>> = entries
+        .iter()
+        .map(|e| {
+            let fl = if e.fam == 1 { Flavour::V4 } else { Flavour::V6 };
+            let choice = match &e.choice {
+                EChoice::Inherit => der::null(),
+                EChoice::Blocks(b) => enc_ip_blocks(fl, b, e.range_form),
+            };
+            der::seq(&[&der::octets(&[0, e.fam as u8]), &choice])
+        })
+        .collect();
+    der::seq_of(&fams)
+}
+
+fn enc_as_ext(entries: &[Entry]) -> Vec<u8> {
+    let parts: Vec<Vec<u8>> = entries
+        .iter()
+        .map(|e| {
+            let choice = match &e.choice {
+                EChoice::Inherit => der::null(),
+                EChoice::Blocks(b) => enc_as_blocks(b, e.range_form),
+            };
+            der::tlv(der::ctx(if e.fam == 0 { 0 } else { 1 }), &choice)
+        })
+        .collect();
+    der::seq_of(&parts)
+}
+
+/// Whether a written block list is in the canonical form of RFC 3779.
+fn written_canonical(b: &[(u128, u128)]) -> bool {
+    !b.is_empty() && canonical(b)
+}
+
+/// One entry for family `fam` (0 as, 1 v4, 2 v6, 3 rdi) relative to the
+/// issuer's effective set.
+fn gen_entry(rng: &mut Rng, fam: usize, eff: &[IntervalSet; 3]) -> Entry {
+    let fi = if fam == 3 { 0 } else { fam };
+    let fl = FLS[fi];
+    let model: Option<IntervalSet> = match rng.below(8) {
+        0 => None,
+        1 => Some(IntervalSet::empty()),
+        2 | 3 => Some(overclaim_of(rng, fl, &eff[fi]).map(|(m, _)| m).unwrap_or_else(|| subset_of(rng, &eff[fi]))),
+        _ => Some(subset_of(rng, &eff[fi])),
+    };
+    let Some(model) = model else {
+        return Entry { fam, choice: EChoice::Inherit, range_form: false, order: "" };
+    };
+    let mut blocks = model.iv.clone();
+    let mut order = "";
+    match rng.below(8) {
+        0 if blocks.len() > 1 => {
+            blocks.reverse();
+            order = "rev";
+        }
+        1 => {
+            // one block written as two adjacent halves
+            if let Some(i) = blocks.iter().position(|(a, b)| a < b) {
+                let (a, b) = blocks[i];
+                let mid = a + (b - a) / 2;
+                blocks[i] = (a, mid);
+                blocks.insert(i + 1, (mid + 1, b));
+                order = "adj";
+            }
+        }
+        2 if !blocks.is_empty() => {
+            let b = *rng.pick(&blocks);
+            blocks.push(b);
+            order = "dup";
+        }
+        _ => {}
+    }
+    Entry { fam, choice: EChoice::Blocks(blocks), range_form: rng.chance(1, 8), order }
+}
+
+/// What the entries written for one family claim together.
+struct Claimed {
+    entries: usize,
+    any_inherit: bool,
+    union: IntervalSet,
+    /// written exactly the way the profile prescribes for one family
+    conforming: bool,
+}
+
+fn claimed_of(entries: &[Entry], fam: usize) -> Claimed {
+    let mine: Vec<&Entry> = entries.iter().filter(|e| e.fam == fam).collect();
+    let mut union = IntervalSet::empty();
+    let mut any_inherit = false;
+    let mut conforming = mine.len() <= 1;
+    for e in &mine {
+        match &e.choice {
+            EChoice::Inherit => any_inherit = true,
+            EChoice::Blocks(b) => {
+                union = union.union(&IntervalSet::from_ranges(b));
+                if !written_canonical(b) {
+                    conforming = false;
+                }
+                let fl = FLS[fam];
+                if e.range_form && b.iter().any(|(lo, hi)| if fam == 0 { lo == hi } else { let (x, y) = fl.embed(*lo, *hi); is_prefix(x, y) }) {
+                    conforming = false;
+                }
+            }
+        }
+    }
+    Claimed { entries: mine.len(), any_inherit, union, conforming }
+}
+
+/// Certificates whose IP or AS resources extension was written by the
+/// independent encoder in shapes the builder cannot produce: several entries
+/// for one family, families in any order, empty lists, inherit next to blocks,
+/// block lists unsorted / adjacent / overlapping / in range form, an rdi
+/// member. The statement allows such a certificate to be rejected; if it is
+/// accepted, everything it claims counts: under the no-overclaim policy all
+/// written blocks must lie inside the issuer, and the validated set must be
+/// the union of what was written (cut to the issuer under the trimming
+/// policy), never just one of the entries.
+#[allow(clippy::too_many_arguments)]
+fn encoder_shapes(ctx: &mut Ctx, w: &World, rng: &mut Rng, spec: &Spec, d: &[u8], issuer: &Node, strict: bool, now: i64, detail: &Value) {
+    let kind = spec.kind;
+    let kname = format!("{:?}", kind).to_lowercase();
+    let ip = kind != Kind::Router && rng.chance(2, 3);
+    let entries: Vec<Entry> = if ip {
+        let n = 1 + rng.usize_below(3);
+        (0..n)
+            .map(|_| {
+                let fam = 1 + rng.usize_below(2);
+                gen_entry(rng, fam, &issuer.eff)
+            })
+            .collect()
+    } else {
+        let pat: &[usize] = *rng.pick(&[&[0usize][..], &[0, 0], &[0, 0], &[0, 3], &[3, 0], &[0, 0, 0], &[3], &[]]);
+        pat.iter().map(|f| gen_entry(rng, *f, &issuer.eff)).collect()
+    };
+    let refuse = spec.overclaim == Overclaim::Refuse;
+    let touched: &[usize] = if ip { &[1, 2] } else { &[0] };
+    let (value, oids): (Vec<u8>, [&[u64]; 2]) = if ip { (enc_ip_ext(&entries), [OID_IP_REFUSE, OID_IP_TRIM]) } else { (enc_as_ext(&entries), [OID_AS_REFUSE, OID_AS_TRIM]) };
+    let ext = extension(if refuse { oids[0] } else { oids[1] }, true, &value);
+    // one time in six the builder's own extension of that kind stays where it is
+    // and the written one comes in addition, before or after it: the extension
+    // is then present twice and both count as claimed
+    let builder_has_it = touched.iter().any(|f| spec.claims[*f] != Claim::Missing);
+    let twice = builder_has_it && rng.chance(1, 6);
+    let written_first = rng.bool();
+    let mut entries = entries;
+    let new_tbs = if twice {
+        let mut own: Vec<Entry> = Vec::new();
+        for f in touched {
+            match &spec.claims[*f] {
+                Claim::Missing => {}
+                Claim::Inherit => own.push(Entry { fam: *f, choice: EChoice::Inherit, range_form: false, order: "" }),
+                Claim::Blocks(m) => own.push(Entry { fam: *f, choice: EChoice::Blocks(m.iv.clone()), range_form: false, order: "" }),
+            }
+        }
+        if written_first {
+            entries.extend(own);
+            edit_extensions2(d, &[], &[ext], &[])
+        } else {
+            own.extend(entries);
+            entries = own;
+            edit_extensions2(d, &[], &[], &[ext])
+        }
+    } else {
+        edit_extensions(d, &oids, &[ext])
+    };
+    let Some(new_tbs) = new_tbs else {
+        ctx.obs("encoder_shape_splice_failed", 1);
+        return;
+    };
+    let Some(x) = resign(w.pool, d, &new_tbs, issuer.key) else { return };
+    let claimed: Vec<(usize, Claimed)> = touched.iter().map(|f| (*f, claimed_of(&entries, *f))).collect();
+    // order of the IP families as written: IPv4 before IPv6
+    let fam_order_ok = entries.windows(2).all(|p| p[0].fam <= p[1].fam);
+    let has_rdi = entries.iter().any(|e| e.fam == 3);
+    // the claims as a conforming encoder would have expressed them
+    let mut claims = spec.claims.clone();
+    for (f, c) in &claimed {
+        claims[*f] = if c.entries == 0 {
+            Claim::Missing
+        } else if c.any_inherit {
+            Claim::Inherit
+        } else {
+            Claim::Blocks(c.union.clone())
+        };
+    }
+    let mut conforming = !twice && fam_order_ok && !has_rdi && !entries.is_empty() && claimed.iter().all(|(_, c)| c.conforming && !(c.any_inherit && !c.union.is_empty()));
+    if kind == Kind::Router && !matches!(claims[0], Claim::Blocks(_)) {
+        conforming = false;
+    }
+    if claims.iter().all(|c| *c == Claim::Missing) {
+        conforming = false;
+    }
+    // in which ways the written extension departs from what the builder can produce
+    let mut odd: Vec<&'static str> = Vec::new();
+    if twice {
+        odd.push("extension-twice");
+    } else if claimed.iter().any(|(_, c)| c.entries > 1) {
+        odd.push("family-repeated");
+    }
+    if !fam_order_ok {
+        odd.push("family-order");
+    }
+    if has_rdi {
+        odd.push("rdi");
+    }
+    if entries.is_empty() {
+        odd.push("no-entry");
+    }
+    if entries.iter().any(|e| matches!(&e.choice, EChoice::Blocks(b) if b.is_empty())) {
+        odd.push("empty-list");
+    }
+    if claimed.iter().any(|(_, c)| c.any_inherit && !c.union.is_empty()) {
+        odd.push("inherit-and-blocks");
+    }
+    if entries.iter().any(|e| !e.order.is_empty()) {
+        odd.push("blocks-not-canonical");
+    }
+    if entries.iter().any(|e| e.range_form) {
+        odd.push("range-form");
+    }
+    let shape = format!("{}:{}", if ip { "ip" } else { "as" }, entries.iter().map(|e| e.tag()).collect::<Vec<_>>().join(","));
+    let outside = claimed.iter().any(|(f, c)| !c.union.is_subset_of(&issuer.eff[*f]));
+    let det = json!({"extension": if ip { "ipAddrBlocks" } else { "autonomousSysIds" }, "written_entries": entries.iter().map(|e| e.json()).collect::<Vec<_>>(),
+        "shape": shape, "departs_from_builder_output_by": odd, "policy": format!("{:?}", spec.overclaim), "cert": hex(&x), "now": now, "strict": strict, "case": detail});
+    ctx.sig(&format!("encoder-shape {} {:?} {} {} odd={}{}", kname, spec.overclaim, shape, if outside { "outside" } else { "inside" }, odd.join("+"), if conforming { " conforming" } else { "" }));
+    let want = expected_eff(&issuer.eff, &claims, spec.overclaim);
+    let mut routes: Vec<(&'static str, Option<Outcome>)> = vec![("validate", validate(ctx, w, kind, &x, Some(&issuer.rc), strict, now))];
+    if kind == Kind::Ee {
+        routes.push(("detached-ee", validate_detached(ctx, &x, &issuer.rc, strict, now)));
+    }
+    for (route, outcome) in routes {
+        ctx.eval();
+        let rc = match outcome {
+            None => continue,
+            Some(Outcome::Rejected(e)) => {
+                ctx.obs("encoder_shape_rejected", 1);
+                for o in &odd {
+                    ctx.obs(&format!("encoder_shape_rejected_with:{}", o), 1);
+                }
+                if conforming && want.is_some() {
+                    let mut dd = det.clone();
+                    dd["error"] = json!(e);
+                    ctx.violation(
+                        &format!("C01:rejects-conforming:encoder-shape:{}:{}", kname, route),
+                        "a correctly issued certificate whose resource extension was written by the independent encoder in the canonical form was rejected",
+                        dd,
+                    );
+                }
+                ctx.sample("encoder-shape-rejected", || json!({"shape": shape, "kind": kname, "observed": format!("rejected: {}", e)}));
+                continue;
+            }
+            Some(Outcome::Accepted(rc)) => rc,
+        };
+        ctx.obs("encoder_shape_accepted", 1);
+        if !conforming {
+            ctx.obs("encoder_shape_nonconforming_accepted", 1);
+            for o in &odd {
+                ctx.obs(&format!("encoder_shape_accepted_with:{}", o), 1);
+            }
+        }
+        ctx.sample("encoder-shape-accepted", || json!({"shape": shape, "kind": kname, "policy": format!("{:?}", spec.overclaim), "observed": "accepted"}));
+        // every written block counts as claimed
+        if refuse && outside {
+            ctx.violation(
+                &format!("C01:accepts:overclaim-refuse:encoder-shape:{}:{}", kname, route),
+                "a no-overclaim certificate whose resource extension (as written) claims blocks outside its issuer was accepted",
+                det.clone(),
+            );
+            continue;
+        }
+        let Some(rc) = rc else { continue };
+        if conforming {
+            if let Some(eff) = &want {
+                check_resources(ctx, &format!("encoder-shape:{}", route), &rc, eff, &issuer.eff, &det);
+            }
+            continue;
+        }
+        for (i, fl) in FLS.iter().enumerate() {
+            ctx.eval();
+            let blocks = match observe(*fl, &rc) {
+                Ok(b) => b,
+                Err(e) => {
+                    ctx.violation(&format!("C01:encoder-shape:{}:resources:{}:malformed", route, fl.name()), &e, det.clone());
+                    continue;
+                }
+            };
+            if !canonical(&blocks) {
+                ctx.obs("encoder_shape_noncanonical_result", 1);
+            }
+            let got = IntervalSet::from_ranges(&blocks);
+            let mut dd = json!({"observed": set_json(&got), "issuer": set_json(&issuer.eff[i]), "case": det});
+            if !got.is_subset_of(&issuer.eff[i]) {
+                ctx.violation(&format!("C01:encoder-shape:{}:resources:{}:grew-beyond-issuer", route, fl.name()), "validated resources are not a subset of the issuer's validated resources", dd);
+                continue;
+            }
+            let (exact, at_least): (Option<IntervalSet>, IntervalSet) = match claimed.iter().find(|(f, _)| *f == i) {
+                // untouched family: as the builder wrote it
+                None => (want.as_ref().map(|x| x[i].clone()), IntervalSet::empty()),
+                Some((_, c)) => {
+                    let honoured = c.union.intersection(&issuer.eff[i]);
+                    if c.any_inherit {
+                        (None, honoured)
+                    } else {
+                        (Some(honoured.clone()), honoured)
+                    }
+                }
+            };
+            if let Some(exact) = exact {
+                if got != exact {
+                    dd["expected"] = set_json(&exact);
+                    ctx.violation(
+                        &format!("C01:encoder-shape:{}:resources:{}:claimed-blocks-not-honoured", route, fl.name()),
+                        "an accepted certificate's validated resources differ from the union of the blocks written in its extension (cut to the issuer under the trimming policy)",
+                        dd,
+                    );
+                }
+            } else if !at_least.is_subset_of(&got) {
+                dd["expected_at_least"] = set_json(&at_least);
+                ctx.violation(
+                    &format!("C01:encoder-shape:{}:resources:{}:claimed-blocks-dropped", route, fl.name()),
+                    "an accepted certificate's validated resources lack blocks written in its extension that the issuer holds",
+                    dd,
+                );
+            }
+        }
+    }
+}
+
+/// How a key identifier is written inside its extension.
+fn keyid_encodings(id_is_aki: bool, content: &[u8], rng: &mut Rng) -> Vec<(String, Vec<u8>)> {
+    // segmentations for the constructed form
+    let n = content.len();
+    let mut segs: Vec<(String, Vec<usize>)> = vec![("1x".into(), vec![n])];
+    if n >= 2 {
+        segs.push(("2x".into(), vec![n / 2, n - n / 2]));
+    }
+    if n > 20 {
+        segs.push(("20+rest".into(), vec![20, n - 20]));
+        segs.push(("rest+20".into(), vec![n - 20, 20]));
+    }
+    if n >= 3 {
+        let a = 1 + rng.usize_below(n - 1);
+        segs.push(("random-split".into(), vec![a, n - a]));
+    }
+    segs.push(("with-empty-piece".into(), vec![0, n]));
+    let (name, seg) = rng.pick(&segs).clone();
+    let mut pieces = Vec::new();
+    let mut pos = 0;
+    for s in seg {
+        pieces.extend_from_slice(&der::octets(&content[pos..pos + s]));
+        pos += s;
+    }
+    if id_is_aki {
+        vec![
+            ("prim".into(), der::seq(&[&der::tlv(der::ctx_prim(0), content)])),
+            (format!("cons:{}", name), der::seq(&[&der::tlv(der::ctx(0), &pieces)])),
+        ]
+    } else {
+        vec![("prim".into(), der::octets(content)), (format!("cons:{}", name), der::tlv(der::T_OCTETSTRING | 0x20, &pieces))]
+    }
+}
+
+/// Key identifiers of every length other than 20 whose leading or trailing
+/// octets agree with the required value, written primitive and constructed,
+/// in a certificate that is otherwise untouched and re-signed by the issuer.
+/// The statement demands equality (AKI = issuer SKI, SKI = hash of the key):
+/// an identifier of another length is not equal, so acceptance is a violation.
+#[allow(clippy::too_many_arguments)]
+fn keyid_shapes(ctx: &mut Ctx, w: &World, rng: &mut Rng, spec: &Spec, d: &[u8], issuer: &Node, strict: bool, now: i64, detail: &Value) {
+    let kind = spec.kind;
+    let ski: [u8; 20] = if kind == Kind::Router {
+        match spec.router_key.as_ref() {
+            Some(k) => k.key_identifier().into(),
+            None => return,
+        }
+    } else {
+        w.pool.info(spec.key).key_identifier().into()
+    };
+    let aki: [u8; 20] = w.pool.info(issuer.key).key_identifier().into();
+    // the extension twice, one instance holding another identifier: whichever the
+    // decoder keeps, the certificate carries an identifier that is not the required one
+    if rng.chance(1, 2) {
+        let id_is_aki = rng.bool();
+        let right: &[u8; 20] = if id_is_aki { &aki } else { &ski };
+        let which = if id_is_aki { "aki" } else { "ski" };
+        let oid = if id_is_aki { OID_CE_AKI } else { OID_CE_SKI };
+        let mut other = *right;
+        match rng.below(3) {
+            0 => other[rng.usize_below(20)] ^= 1 << rng.below(8),
+            1 => other = if id_is_aki { ski } else { aki },
+            _ => other.copy_from_slice(&rng.bytes(20)),
+        }
+        if other != *right {
+            let value = if id_is_aki { der::seq(&[&der::tlv(der::ctx_prim(0), &other)]) } else { der::octets(&other) };
+            let ext = extension(oid, false, &value);
+            let wrong_first = rng.bool();
+            let tbs = if wrong_first { edit_extensions2(d, &[], &[ext], &[]) } else { edit_extensions2(d, &[], &[], &[ext]) };
+            if let Some(x) = tbs.and_then(|t| resign(w.pool, d, &t, issuer.key)) {
+                let variant = format!("{}-twice-wrong-{}", which, if wrong_first { "first" } else { "last" });
+                let mut det = detail.clone();
+                det["key_identifier"] = json!({"which": which, "additional_instance": hex(&other), "required": hex(right)});
+                ctx.sig(&format!("keyid {} {:?}", variant, kind));
+                expect_reject(ctx, w, &variant, kind, &x, Some(&issuer.rc), strict, now, &det);
+            }
+        }
+    }
+    for _ in 0..2 {
+        let id_is_aki = rng.bool();
+        let right: &[u8; 20] = if id_is_aki { &aki } else { &ski };
+        let which = if id_is_aki { "aki" } else { "ski" };
+        let len = *rng.pick(&[0usize, 1, 10, 19, 20, 21, 24, 32, 40]);
+        let anchor = if rng.bool() { "prefix" } else { "suffix" };
+        let pad: Vec<u8> = match rng.below(3) {
+            0 => vec![0; 20],
+            1 => right.to_vec(),
+            _ => rng.bytes(20),
+        };
+        let content: Vec<u8> = match (len.cmp(&20), anchor) {
+            (std::cmp::Ordering::Less, "prefix") => right[..len].to_vec(),
+            (std::cmp::Ordering::Less, _) => right[20 - len..].to_vec(),
+            (std::cmp::Ordering::Equal, _) => right.to_vec(),
+            (_, "prefix") => [&right[..], &pad[..len - 20]].concat(),
+            _ => [&pad[..len - 20], &right[..]].concat(),
+        };
+        for (enc, value) in keyid_encodings(id_is_aki, &content, rng) {
+            if len == 20 && enc == "prim" {
+                continue; // that is the untouched certificate
+            }
+            let ext = extension(if id_is_aki { OID_CE_AKI } else { OID_CE_SKI }, false, &value);
+            let Some(new_tbs) = edit_extensions(d, &[if id_is_aki { OID_CE_AKI } else { OID_CE_SKI }], &[ext]) else {
+                ctx.obs("keyid_splice_failed", 1);
+                continue;
+            };
+            let Some(x) = resign(w.pool, d, &new_tbs, issuer.key) else { continue };
+            let enc_class = if enc == "prim" { "prim" } else { "cons" };
+            let mut det = detail.clone();
+            det["key_identifier"] = json!({"which": which, "octets": hex(&content), "required": hex(right), "encoding": enc});
+            if len == 20 {
+                // the right value in a BER-only encoding: DER forbids it, the statement is
+                // satisfied; either verdict is fine
+                ctx.eval();
+                ctx.sig(&format!("keyid {} right-value {} {:?}", which, enc, kind));
+                match validate(ctx, w, kind, &x, Some(&issuer.rc), strict, now) {
+                    Some(Outcome::Accepted(_)) => ctx.obs("keyid_right_value_constructed_accepted", 1),
+                    Some(Outcome::Rejected(_)) => ctx.obs("keyid_right_value_constructed_rejected", 1),
+                    None => {}
+                }
+                continue;
+            }
+            let variant = format!("{}-len{}-{}-{}", which, len, if len == 0 { "empty" } else { anchor }, enc_class);
+            ctx.sig(&format!("keyid {} len={} {} {} {:?}", which, len, anchor, enc, kind));
+            expect_reject(ctx, w, &variant, kind, &x, Some(&issuer.rc), strict, now, &det);
+        }
+    }
+}
+
 pub fn run(ctx: &mut Ctx) {
     if ctx.no_ffi() {
         ctx.notes.push("C01 needs signatures (aws-lc, FFI): not run under Miri".into());
@@ -902,8 +1512,9 @@ pub fn run(ctx: &mut Ctx) {
     };
     let chains = ctx.stage_budget((20_000, 600_000), 3_000, 0, 24);
     let mut rng = ctx.rng("chains");
+    let mut xrng = ctx.rng("encoder-shapes");
     for i in 0..chains {
-        run_chain(ctx, &w, &mut rng, i);
+        run_chain(ctx, &w, &mut rng, &mut xrng, i);
     }
     ctx.obs("signatures_made", pool.signatures.get());
 }
